@@ -21,7 +21,7 @@ From EV Require Import Base.Bytes Base.Store Base.Monad gen.Consts Codec.Types C
   LedgerProofs.Spec_Transfers_Multi LedgerProofs.Spec_Transfers
   LedgerProofs.C01_World LedgerProofs.C01_Step LedgerProofs.C01_Exact LedgerProofs.C01_Check LedgerProofs.C01_Live
   LedgerProofs.C01_Examples LedgerProofs.C10_Emit LedgerProofs.C10_Parser LedgerProofs.C10_Accept
-  LedgerProofs.Live_World LedgerProofs.Live_Nft LedgerProofs.Live_Multi.
+  LedgerProofs.Live_World LedgerProofs.Live_Nft LedgerProofs.Live_Multi LedgerProofs.Live_MultiRefund.
 
 (* a call by the system contract (freeze / pause), executed on the shard of the target account *)
 Definition sysin (rcpt : bytes) (args : list bytes) : input :=
@@ -34,6 +34,7 @@ Definition E0 : env := env_at c0 0.
 Definition E1 : env := env_at c0 1.
 
 Ltac by_compute := vm_compute; reflexivity.
+Ltac by_neq := let H := fresh in intros H; vm_compute in H; discriminate H.
 Ltac rejected := let o := fresh in let s := fresh in let H := fresh in intros o s H; vm_compute in H; discriminate H.
 
 (* ================================================================ *)
@@ -84,7 +85,7 @@ Example ex_nft_frozen_world :
   /\ paused_at (mk_state (shard_accts wF1 0)) (P ++ nftA) = true
   /\ wbal c0 wF1 alice kNft = 1%Z /\ wbal c0 wF1 bob kNft = 1%Z
   /\ fst (exec E1 (m_fn mN) (deliver_input c0 mN 1 100000) (mk_state (shard_accts wF1 1))) = Err EFrozenForAccount.
-Proof. repeat split; by_compute. Qed.
+Proof. do 6 (split; [by_compute|]). by_compute. Qed.
 
 Lemma wF1_inv : WInv c0 wF1. Proof. apply winv_b_ok. by_compute. Qed.
 
@@ -154,7 +155,7 @@ Example ex_multi_emitted : inflight wM1 = [mM] /\ m_id mM = 0%nat /\ m_dest mM =
   /\ map (dest_cell E1) (mmsg_triples c0 mM) = [kNft; kTok]
   /\ credits c0 mM = [(kNft, 1%Z); (kTok, 3%Z)]
   /\ wbal c0 wM1 alice kNft = 2%Z /\ wbal c0 wM1 alice kTok = 2%Z.
-Proof. repeat (split; [by_compute|]). by_compute. Qed.
+Proof. do 9 (split; [by_compute|]). by_compute. Qed.
 
 Lemma wM1_inv : WInv c0 wM1. Proof. apply winv_b_ok. by_compute. Qed.
 Lemma mM_triples : mmsg_triples c0 mM = [trNft; trTok]. Proof. apply ex_multi_emitted. Qed.
@@ -187,8 +188,8 @@ Proof.
   - exact mM_msg.
   - by_compute.
   - rewrite mM_triples, mM_shd. apply (dest_ready_distinct (env_at c0 1)).
-    + exact cells_distinct.
-    + intros _ _. discriminate.
+    + replace (map (dest_cell (env_at c0 1)) [trNft; trTok]) with [kNft; kTok] by by_compute. exact cells_distinct.
+    + intros _ _. by_neq.
     + constructor; [|constructor; [|constructor]].
       * apply (triple_ready_nft _ _ _ _ _ _ (nf 1 1)); [intros _; by_compute|by_compute|by_compute|discriminate| |].
         -- right. exists (nf 1 1). split; [by_compute|]. split; [discriminate|].
@@ -197,7 +198,7 @@ Proof.
       * apply triple_ready_fungible; [intros _; by_compute|by_compute| | |vm_compute; discriminate].
         -- right. exists (tk 7). split; [by_compute|]. split; [reflexivity|discriminate].
         -- intros _ _. split; by_compute.
-  - cbv zeta. rewrite H1, H2, !Hb. repeat (split; [by_compute|]). by_compute.
+  - cbv zeta. rewrite H1, H2, (Hb bob kNft), (Hb bob kTok). do 5 (split; [by_compute|]). by_compute.
 Qed.
 
 (* ---- bob's TOK entry frozen after the emission: the second triple is refused, the delivery is rolled back ---- *)
@@ -212,7 +213,7 @@ Example ex_multi_frozen_world :
   /\ frozen_at E0 (mk_state (shard_accts wG1 0)) alice kNft = true
   /\ paused_at (mk_state (shard_accts wG1 0)) kTok = true
   /\ fst (exec E1 (m_fn mM) (deliver_input c0 mM 1 100000) (mk_state (shard_accts wG1 1))) = Err EFrozenForAccount.
-Proof. repeat (split; [by_compute|]). by_compute. Qed.
+Proof. do 4 (split; [by_compute|]). by_compute. Qed.
 
 Lemma wG1_inv : WInv c0 wG1. Proof. apply winv_b_ok. by_compute. Qed.
 
@@ -233,7 +234,7 @@ Proof.
   - by_compute.
   - rejected.
   - rewrite mM_triples, mM_shs. apply (dest_ready_distinct (env_at c0 0)).
-    + exact cells_distinct.
+    + replace (map (dest_cell (env_at c0 0)) [trNft; trTok]) with [kNft; kTok] by by_compute. exact cells_distinct.
     + intros H. discriminate H.
     + constructor; [|constructor; [|constructor]].
       * apply (triple_ready_nft _ _ _ _ _ _ (nf 1 1)); [intros H; discriminate H|by_compute|by_compute|discriminate| |intros H; discriminate H].
@@ -242,8 +243,63 @@ Proof.
       * apply triple_ready_fungible; [intros H; discriminate H|by_compute| |intros H; discriminate H|vm_compute; discriminate].
         right. exists (tk 2). split; [by_compute|]. split; [reflexivity|discriminate].
   - cbv zeta. split; [exact H1|]. split; [rewrite H2; by_compute|]. split; [by_compute|].
-    split; [rewrite H4; by_compute|]. split; [by_compute|]. rewrite !Hb.
-    repeat (split; [by_compute|]). exact Ht.
+    split; [rewrite H4; by_compute|]. split; [by_compute|].
+    rewrite (Hb alice kNft), (Hb alice kTok), (Hb bob kNft), (Hb bob kTok).
+    do 8 (split; [by_compute|]). exact Ht.
+Qed.
+
+(* ---- the composition theorem for the multi transfer applies: untouched cells (bob frozen, TOK paused at alice's shard;
+        alice's own cells are what the transfer left) ---- *)
+Definition wH1 : world := wrun c0 wM1
+  [OCall 1 C.BuiltInFunctionESDTFreeze (sysin bob [tokA]);
+   OCall 0 C.BuiltInFunctionESDTPause (sysin SYS [tokA])].
+Lemma wH1_inv : WInv c0 wH1. Proof. apply winv_b_ok. by_compute. Qed.
+
+Lemma iMul_consistent : triples_consistent E0 (mk_state (shard_accts w0 0)) alice (multi_snd_triples iMul).
+Proof.
+  replace (multi_snd_triples iMul) with [(nftA, u64_bytes 1, u64_bytes 1); (tokA, [], u64_bytes 3)] by by_compute.
+  constructor; [|constructor; [|constructor]]; intros t Ht; vm_compute in Ht; inversion Ht; subst t; reflexivity.
+Qed.
+
+Example ex_multi_restored_untouched :
+  let w2 := wstep c0 (wstep c0 wH1 (ODeliver 0 100000)) (ORefund 0 100000) in
+  inflight w2 = [] /\ wbal c0 w2 alice kNft = wbal c0 w0 alice kNft /\ wbal c0 w2 alice kTok = wbal c0 w0 alice kTok
+  /\ wbal c0 wH1 alice kNft = 2%Z /\ wbal c0 w0 alice kNft = 3%Z /\ wbal c0 wH1 alice kTok = 2%Z /\ wbal c0 w0 alice kTok = 5%Z.
+Proof.
+  cbv zeta.
+  destruct (exec E0 C.BuiltInFunctionMultiESDTNFTTransfer iMul (mk_state (shard_accts w0 0))) as [[o| |] s1] eqn:Hex;
+    try (exfalso; vm_compute in Hex; discriminate Hex).
+  destruct (multi_rejected_refund_restores_untouched c0 c0_ok 0 (shard_accts w0 0) iMul 0 o s1 mM wH1 0 100000 100000)
+    as (H1 & _ & Hb & _).
+  - split; [reflexivity|]. split; reflexivity.
+  - exact iMul_consistent.
+  - replace (map rt_cell (multi_snd_triples iMul)) with [kNft; kTok] by by_compute. exact cells_distinct.
+  - intros x t Hx Hn Ht.
+    replace (multi_snd_triples iMul) with [(nftA, u64_bytes 1, u64_bytes 1); (tokA, [], u64_bytes 3)] in Hx by by_compute.
+    destruct Hx as [<-|[<-|[]]]; [vm_compute in Hn; discriminate Hn|]. vm_compute in Ht. inversion Ht; subst t. reflexivity.
+  - exact Hex.
+  - assert (Ho : o = match fst (exec E0 C.BuiltInFunctionMultiESDTNFTTransfer iMul (mk_state (shard_accts w0 0))) with Ok x => x | _ => o end)
+      by (rewrite Hex; reflexivity).
+    rewrite Ho. vm_compute. left. reflexivity.
+  - exact wH1_inv.
+  - by_compute.
+  - by_compute.
+  - by_compute.
+  - assert (Hs : s1 = snd (exec E0 C.BuiltInFunctionMultiESDTNFTTransfer iMul (mk_state (shard_accts w0 0)))) by (rewrite Hex; reflexivity).
+    rewrite Hs. intros x Hx.
+    replace (multi_snd_triples iMul) with [(nftA, u64_bytes 1, u64_bytes 1); (tokA, [], u64_bytes 3)] in Hx by by_compute.
+    destruct Hx as [<-|[<-|[]]]; by_compute.
+  - rejected.
+  - split; [rewrite H1; by_compute|].
+    assert (Hn : wbal c0 (wstep c0 (wstep c0 wH1 (ODeliver 0 100000)) (ORefund 0 100000)) alice kNft = wbal c0 w0 alice kNft).
+    { replace kNft with (rt_cell (nftA, u64_bytes 1, u64_bytes 1)) by by_compute.
+      change alice with (i_caller iMul) at 1. rewrite Hb; [|replace (multi_snd_triples iMul) with [(nftA, u64_bytes 1, u64_bytes 1); (tokA, [], u64_bytes 3)] by by_compute; left; reflexivity].
+      rewrite wbal_state. reflexivity. }
+    assert (Ht : wbal c0 (wstep c0 (wstep c0 wH1 (ODeliver 0 100000)) (ORefund 0 100000)) alice kTok = wbal c0 w0 alice kTok).
+    { replace kTok with (rt_cell (tokA, [], u64_bytes 3)) by by_compute.
+      change alice with (i_caller iMul) at 1. rewrite Hb; [|replace (multi_snd_triples iMul) with [(nftA, u64_bytes 1, u64_bytes 1); (tokA, [], u64_bytes 3)] by by_compute; right; left; reflexivity].
+      rewrite wbal_state. reflexivity. }
+    split; [exact Hn|]. split; [exact Ht|]. do 3 (split; [by_compute|]). by_compute.
 Qed.
 
 Print Assumptions ex_nft_accepted.
@@ -251,3 +307,4 @@ Print Assumptions ex_nft_rejected_refund.
 Print Assumptions ex_nft_restored.
 Print Assumptions ex_multi_accepted.
 Print Assumptions ex_multi_rejected_refund.
+Print Assumptions ex_multi_restored_untouched.
